@@ -170,6 +170,11 @@ def scenario_case(ctx, case):
     if state == 'timeout':
         from vlib.core import HarnessError
         raise HarnessError('C09 scenario did not settle: %r' % (case,))
+    if state == 'runaway':
+        ctx.fail('scenario', 'N5-endless-reconnect-loop', case,
+                 'more than %d TCP connections in one scenario'
+                 % world.max_connects)
+        return
     if state == 'blocked':
         ctx.fail('scenario', 'N5-client-blocks-in-read', case,
                  'the client waits for ever for bytes the server never '
